@@ -209,3 +209,12 @@ def native_crash_replay(mk_setup, exe):
         if rax is None and isinstance(info, str) and info.startswith("CRASH"):
             return True, "; ".join(logs)
     return False, "; ".join(logs)
+
+
+def smt_check(conds):
+    """Decide satisfiability of the conjunction with a fresh QF_BV solver (assert, not assume).
+    Returns (z3 result, model or None)."""
+    s = z3.SolverFor("QF_BV")
+    s.add(*conds)
+    r = s.check()
+    return r, (s.model() if r == z3.sat else None)
